@@ -49,6 +49,9 @@ func (x *Exec) siteAssertions(st *State, in ssa.Instruction, name string, args [
 			for i := range args {
 				ov[fmt.Sprintf("arg%d", i)] = dualOf(args[i])
 			}
+			if x.curRecv.T != "" {
+				ov["recv"] = dualOf(x.curRecv) // receiver of an interface method call
+			}
 			oldSt := x.entry
 			if strings.Contains(ca.Text, "athead(") {
 				// athead(e): e in the state at the head of the innermost loop around this call
